@@ -64,7 +64,7 @@ def plan(tier):
 
 # --------------------------------------------------------------------------
 TRANS = ["redundant", "redundant", "colour", "omp-parallel-loop", "omp-loop",
-         "async", "move"]
+         "async", "move", "omp-region"]
 
 
 def gen_history(rng):
@@ -72,7 +72,19 @@ def gen_history(rng):
     for _ in range(rng.randint(0, 5)):
         ops.append({"t": pick(rng, TRANS), "n": rng.randrange(1 << 16),
                     "depth": pick(rng, [None, 1, 2, 2, 3]),
-                    "n2": rng.randrange(1 << 16)})
+                    "n2": rng.randrange(1 << 16),
+                    "span": pick(rng, [2, 2, 3])})
+    if rng.random() < 0.25:
+        # the pipeline a script would write: redundant computation on
+        # neighbouring loops (different depths), then one parallel region
+        # around them
+        n = rng.randrange(1 << 16)
+        ops = [{"t": "redundant", "n": n, "n2": 0, "span": 2,
+                "depth": pick(rng, [None, 2, 3])},
+               {"t": "redundant", "n": n + 1, "n2": 0, "span": 2,
+                "depth": pick(rng, [None, 1, 1, 2])}][:rng.randint(0, 2)] + \
+            [{"t": "omp-region", "n": n, "n2": 0, "depth": None,
+              "span": pick(rng, [2, 2, 3])}] + ops[:2]
     return ops
 
 
@@ -109,6 +121,24 @@ def apply_history(psy, ops, counters=None):
                 loop = loops[op["n"] % len(loops)]
                 Dynamo0p3OMPLoopTrans().apply(loop)
                 OMPParallelTrans().apply(loop.parent.parent)
+            elif kind == "omp-region":
+                # worksharing directives on neighbouring top-level loops,
+                # one parallel region around all of them
+                first = loops[op["n"] % len(loops)]
+                while first.parent is not sched:
+                    first = first.parent
+                pos = first.position
+                span = sched.children[pos:pos + op.get("span", 2)]
+                if len(span) < 2 or not all(isinstance(n, LFRicLoop)
+                                            for n in span):
+                    raise TransformationError("span is not all loops")
+                for lp in span:
+                    Dynamo0p3OMPLoopTrans().validate(lp)
+                for lp in span:
+                    Dynamo0p3OMPLoopTrans().apply(lp)
+                pos = span[0].parent.parent.position
+                OMPParallelTrans().apply(
+                    sched.children[pos:pos + len(span)])
             elif kind == "async":
                 if not hexs:
                     raise TransformationError("no halo exchange")
